@@ -35,6 +35,7 @@ type vxC01Phase struct {
 	Fates []int `json:"fates"` // one per caller
 	Order []int `json:"order"` // keys deciding the answer order of this phase's answers and of released late answers
 	Early []int `json:"early,omitempty"` // fate 5: microseconds between the start of the call and its cancellation (indexed like Fates)
+	Stray int   `json:"stray,omitempty"` // >0: before this phase's answers the node sends that many unsolicited frames (a body of 30 bytes each, one write) on stream ids no request holds
 }
 
 type vxC01Case struct {
@@ -71,6 +72,9 @@ func vxDrawC01(t *rapid.T) *vxC01Case {
 			if early {
 				ph.Early = append(ph.Early, rapid.SampledFrom([]int{0, 20, 100, 250, 600, 1500}).Draw(t, "early_us"))
 			}
+		}
+		if n < 100 && rapid.IntRange(0, 5).Draw(t, "stray") == 0 {
+			ph.Stray = rapid.IntRange(1, 3).Draw(t, "stray_n")
 		}
 		c.Phases = append(c.Phases, ph)
 	}
@@ -280,6 +284,7 @@ func vxRunC01(c *vxC01Case, k *vstats.Case) error {
 	lateAsErr := map[string]bool{}    // which of them are answered with an ERROR frame
 	reorderings, lateAfterNewer := 0, 0
 	earlyCancels, earlyArrived := 0, 0
+	strays := 0
 	for pi, ph := range c.Phases {
 		n := len(ph.Fates)
 		results := make(chan vxC01Result, n)
@@ -404,6 +409,22 @@ func vxRunC01(c *vxC01Case, k *vstats.Case) error {
 		for i := 1; i < len(answers); i++ {
 			if answers[i].tok < answers[i-1].tok {
 				reorderings++
+			}
+		}
+		if ph.Stray > 0 && len(answers) > 0 {
+			// duplicate / stray answers on ids nobody waits on (the top of the id range: with fewer than a hundred
+			// callers those ids are not handed out): the driver discards them, the answers behind them stay in step
+			mon.mu.Lock()
+			h := mon.held[answers[0].tok]
+			mon.mu.Unlock()
+			if h != nil {
+				for j := 0; j < ph.Stray; j++ {
+					stray := *vnode.RowsResponse([]cqlspec.Column{{Keyspace: "ks", Table: "t", Name: "tok", Type: cqlspec.Scalar(cqlspec.Varchar)}},
+						[][]cqlspec.Value{{cqlspec.BytesValue([]byte("stray-frame-nobody-asked-for"))}})
+					stray.Version, stray.Stream = h.rc.Req.Header.Version, mon.maxStream-1-j
+					h.rc.Conn.Send(&stray)
+				}
+				strays += ph.Stray
 			}
 		}
 		for _, a := range answers {
@@ -540,6 +561,9 @@ func vxRunC01(c *vxC01Case, k *vstats.Case) error {
 	}
 	if reorderings > 0 {
 		k.Class("answers-reordered")
+	}
+	if strays > 0 {
+		k.Class("unsolicited frames on unused stream ids")
 	}
 	k.Class(fmt.Sprintf("v%d", c.Proto))
 	return nil
